@@ -133,6 +133,11 @@ class Gen:
         dsc["exit"] = r.choice([1, 3, 9])
         self.emit_do(d + ".do", dsc)
         self.steps.append("C ifchange k0 %s" % t)
+        if r.random() < 0.6:
+            # asked for twice in ONE command: by a dependent and on the command line (finding F23)
+            self.emit_do("tp.do", {"deps": [t], "ifc": [], "always": 0, "stamp": 0, "out": "S", "payload": self.newtok(), "cat": 0, "exit": 0, "tol": 0})
+            self.steps.append("C ifchange k1 %s" % r.choice(["tp,%s" % t, "%s,tp" % t, "tp,%s,tp" % t]))
+            self.count("tolerant_requested_twice")
         for _ in range(r.randint(1, 2)):
             self.steps.append(r.choice(["C ifchange k0 %s" % t, "C ood k0 -", "C ifchange k0 %s" % t]))
         if r.random() < 0.6:
